@@ -300,7 +300,9 @@ func runCase(t *testing.T, tr *hx.Trace, id int, r *rand.Rand, script []string) 
 			}
 		} else {
 			pgc = hx.Pick(r, []int64{4 * minute, 30 * minute, 7 * minute, 120 * minute})
-			rules = genRules(r)
+			if id >= 0 {
+				rules = genRules(r)
+			}
 			rs := make([]string, len(rules))
 			for i, x := range rules {
 				rs[i] = x.String()
@@ -337,20 +339,20 @@ func runCase(t *testing.T, tr *hx.Trace, id int, r *rand.Rand, script []string) 
 			}
 			return
 		}
-		// regex oracle lines
-		seen := map[string]bool{}
-		for _, x := range rules {
-			for _, m := range append(append([]mspec{}, x.src...), x.tgt...) {
+		if id < 0 {
+			// regex oracle: every pattern of the templates against every value of its label
+			seen := map[string]bool{}
+			for _, m := range tmpl {
 				if m.op == "re" || m.op == "nre" {
 					for _, v := range vocab[m.name] {
-						k := m.value + "\x00" + v
-						if !seen[k] {
+						if k := m.value + "\x00" + v; !seen[k] {
 							seen[k] = true
 							do(fmt.Sprintf("rematch %s %s", hx.Hex(m.value), hx.Hex(v)))
 						}
 					}
 				}
 			}
+			return
 		}
 		// a pool of label sets; several share equal-label values by construction
 		var pool []model.LabelSet
@@ -360,7 +362,7 @@ func runCase(t *testing.T, tr *hx.Trace, id int, r *rand.Rand, script []string) 
 		ends := map[string]int64{}
 		now := int64(0)
 		seq := int64(0)
-		nops := 5 + r.IntN(10)
+		nops := 3 + r.IntN(8)
 		for range nops {
 			seq++
 			switch x := r.IntN(10); {
@@ -418,14 +420,14 @@ func runCase(t *testing.T, tr *hx.Trace, id int, r *rand.Rand, script []string) 
 				do(fmt.Sprintf("wait %d", now))
 			}
 			// panel
-			np := 3 + r.IntN(3)
+			np := 2 + r.IntN(3)
 			for range np {
 				ls := hx.Pick(r, pool)
 				if r.IntN(6) == 0 {
 					ls = genLabels(r)
 				}
 				do(fmt.Sprintf("mutes %d %s", now, encLabels(ls)))
-				if r.IntN(5) == 0 {
+				if r.IntN(6) == 0 {
 					do(fmt.Sprintf("fresh %d %s", now, encLabels(ls)))
 				}
 			}
@@ -457,7 +459,8 @@ func TestEngine(t *testing.T) {
 		return
 	}
 	r := hx.Rand(3)
-	for id := range hx.Cases(1200, 40000) {
+	runCase(t, tr, -1, r, nil)
+	for id := range hx.Cases(8000, 100000) {
 		runCase(t, tr, id, r, nil)
 	}
 }
